@@ -20,10 +20,11 @@ import (
 	"github.com/evstack/ev-node/sequencers/single"
 )
 
-// Supporting exploration (thorough tier). Both ops are self-contained: they build their own
+// Concurrency (both tiers) and supporting exploration (thorough tier). Both ops are self-contained: they build their own
 // sequencer, never touch the scenario's queue, and print "ok" (the model prints "ok", too).
 //
-//   conc seed= writers= per= readers= max=   concurrent submitters/consumers on the real Sequencer; the
+//   conc seed= writers= per= readers= max= dup=   concurrent submitters/consumers on the real Sequencer (dup=1: the
+//        writers submit batches with EQUAL contents, among themselves and with each other); the
 //        recorded history (invoke/return of SubmitBatchTxs / GetNextBatch) is checked for
 //        linearisability against the abstract bounded FIFO with porcupine.  This supports the
 //        assumption under the theorems (the mutex makes the operations atomic).
@@ -75,6 +76,7 @@ func fifoModel(max int) porcupine.Model {
 
 func (r *runner) conc(o hx.Op) {
 	writers, per, readers, max := o.Int("writers"), o.Int("per"), o.Int("readers"), o.Int("max")
+	dup := o.Int("dup") == 1
 	if writers <= 0 || writers > 8 {
 		writers = 3
 	}
@@ -113,6 +115,9 @@ func (r *runner) conc(o hx.Op) {
 			defer wg.Done()
 			for k := 0; k < per; k++ {
 				txs := [][]byte{{byte(w), byte(k)}, []byte("conc")}
+				if dup {
+					txs = [][]byte{{byte(k % 2)}, []byte("conc")} // the same two contents again and again, from every writer
+				}
 				c := content(txs)
 				record(w, concIn{submit: true, c: c}, func() string {
 					_, err := s.SubmitBatchTxs(ctx, coresequencer.SubmitBatchTxsRequest{Id: id, Batch: &coresequencer.Batch{Transactions: txs}})
@@ -180,6 +185,9 @@ func (r *runner) conc(o hx.Op) {
 		r.c.Report("C10/concurrent/datastore-not-empty-after-drain", fmt.Sprintf("%d entries left", len(img)))
 	}
 	r.c.Hit(fmt.Sprintf("conc:calls=%d", len(hist)/20*20))
+	if dup {
+		r.c.Hit("conc:equal-contents")
+	}
 }
 
 // badger: differential run LogDS vs real badger with close/reopen.
